@@ -89,6 +89,10 @@ def names(scheme, n):
         return ["0;1", "0", "1", "0; 1"][:n]
     if scheme == "reserved":
         return ["TRASH", "TrashNode", "Empty", "Start"][:n]
+    if scheme == "pairA":       # with pairB: two different pairs of states whose "p; q" spellings coincide
+        return ["p", "p; q", "z", "y"][:n]
+    if scheme == "pairB":
+        return ["q; r", "r", "z", "y"][:n]
     if scheme == "reserved2":
         return ["Start", "TrashNode", "Empty", "TRASH"][:n]
     raise ValueError(scheme)
